@@ -322,13 +322,14 @@ func expand(c *core.Ctx, b *behaviour, base *job, size int) []*job {
 }
 
 type stats struct {
-	mu      sync.Mutex
-	conform int64
-	aborted int64 // tampered runs in which some endpoint failed / timed out (the allowed outcome)
-	timeout int64
-	noReach int64
-	behind  int64 // the change lies behind the receiver's cleartext phase (equivalent to a protected-phase injection)
-	bySig   map[string]int
+	mu           sync.Mutex
+	conform      int64
+	aborted      int64 // tampered runs in which some endpoint failed / timed out (the allowed outcome)
+	timeout      int64
+	noReach      int64
+	scriptBroken bool
+	behind       int64 // the change lies behind the receiver's cleartext phase (equivalent to a protected-phase injection)
+	bySig        map[string]int
 }
 
 func runJobs(c *core.Ctx, env *hsreal.Env, jobs []*job, st *stats) {
@@ -395,10 +396,13 @@ func runJobs(c *core.Ctx, env *hsreal.Env, jobs []*job, st *stats) {
 		sig := signature(j, d)
 		ss := fmt.Sprint(sig)
 		st.mu.Lock()
+		if d.Inv == "FrameScript" || d.Inv == "HonestEncryptedTalks" {
+			st.scriptBroken = true
+		}
 		st.bySig[ss]++
 		n := st.bySig[ss]
 		st.mu.Unlock()
-		if n > 2 {
+		if n > 1 { // one recorded example per signature
 			return
 		}
 		c.Fail(core.Failure{Signature: sig, Detail: fmt.Sprintf("%s/%s: %s [concrete action %+v]", d.Inv, d.Class, d.Detail, j.Action), Scenario: j})
@@ -516,8 +520,9 @@ func run(c *core.Ctx) {
 		sizes[name] = [2][]int{sc, ss}
 	}
 	runJobs(c, env, baseJobs, st)
-	if c.Failures() > 0 || c.IsBroken() {
-		// the frame script of the model no longer matches the code: relay positions would be meaningless
+	if st.scriptBroken || c.IsBroken() {
+		// the untouched handshake fails or its frame script no longer matches the
+		// model: relay positions would be meaningless
 		c.Add("traces_validated_against_impl", st.conform)
 		return
 	}
@@ -557,8 +562,4 @@ func run(c *core.Ctx) {
 		c.Set("exhaustive", true)
 	}
 	c.Set("rule", "a case is one real handshake of one shape (no authentication, CLAIMTOBE, TOKEN, resumed) through the frame-aware relay with one concrete relay action (byte offset x substitute, inserted frame variant, removed frame, split point, merge), followed by one application message each way; abstract behaviours (shape x cleartext frame x action) are enumerated by TLC from Gen_Handshake mode c04; thorough = every byte offset of every cleartext frame x 3 substitutes, quick = every header byte x 3 substitutes + 24 seeded payload offsets per frame; every case is non-trivial")
-}
-
-func wireAct(dir string, frame, off int, x byte) wire.C04Action {
-	return wire.C04Action{Kind: "modify", Dir: dir, Frame: frame, Offset: off, Xor: x}
 }
